@@ -116,10 +116,67 @@ def enc_element(kind, shape, v):
             assume(0 <= v[0] < 256)
             rule = bytes([shape[1], 0x81, v[0]])
         return bytes([len(rule)]) + rule
+    if kind == 'capability':
+        if shape == 'mp':
+            assume(v[0] == 1 or v[0] == 2)
+            assume(v[1] == 1 or v[1] == 4 or v[1] == 128)
+            return bytes([1, 4]) + E.u16(v[0]) + bytes([0, v[1]])
+        if shape == 'addpath':
+            assume(v[0] == 1 or v[0] == 2)
+            assume(1 <= v[1] <= 3)
+            return bytes([69, 4]) + E.u16(v[0]) + bytes([1, v[1]])
+        if shape == 'addpath2':
+            assume(1 <= v[1] <= 3 and 1 <= v[2] <= 3)
+            return bytes([69, 8]) + E.u16(1) + bytes([1, v[1]]) + E.u16(2) + bytes([1, v[2]])
+        if shape == 'rr':
+            return bytes([2, 0])
+        if shape == 'as4':
+            assume(1 <= v[0] < 2 ** 32)
+            return bytes([65, 4]) + E.u32(v[0])
+        if shape == 'unknown':
+            assume(0 <= v[0] < 256)
+            return bytes([99, 1, v[0]])
     raise AssertionError((kind, shape))
 
 
+def decode_caps(data):
+    """OPEN whose optional parameters are one capabilities parameter per capability in `data`"""
+    from yabgp.message.open import Open
+    params, i = b'', 0
+    while i < len(data):
+        n = 2 + data[i + 1]
+        params += bytes([2, n]) + data[i:i + n]
+        i += n
+    body = bytes([4]) + E.u16(65001) + E.u16(90) + bytes([10, 0, 0, 2, len(params)]) + params
+    caps = Open().parse(body)['capabilities']
+    # as a list of (key, value) in a canonical order, list values flattened: concatenation of lists is then the law
+    out = []
+    for k in sorted(caps):
+        if isinstance(caps[k], list):
+            out.extend((k, x) for x in caps[k])
+        elif k != '99':
+            out.append((k, caps[k]))
+        else:
+            out.append((k, None))
+    return out
+
+
+def merge_caps(da, db):
+    keys = sorted(set(k for k, _ in da) | set(k for k, _ in db))
+    out = []
+    for k in keys:
+        xa = [x for kk, x in da if kk == k]
+        xb = [x for kk, x in db if kk == k]
+        if k in ('afi_safi', 'add_path'):
+            out.extend((k, x) for x in xa + xb)
+        else:
+            out.append((k, (xb or xa)[-1]))
+    return out
+
+
 def decode(kind, shape, data):
+    if kind == 'capability':
+        return decode_caps(data)
     if kind == 'prefix4':
         from yabgp.message.update import Update
         return Update.parse_prefix_list(data)
@@ -170,6 +227,8 @@ def ob_concat(a0: int, a1: int, a2: int, a3: int, a4: int, a5: int, b0: int, b1:
     db = decode(kind, P['b'], eb)
     dab = decode(kind, None, ea + eb)
     cover('decoded')
+    if kind == 'capability':
+        return same(dab, merge_caps(da, db))
     return same(list(dab), list(da) + list(db))
 
 
@@ -224,6 +283,7 @@ def obligations(tier, seed):
         'ls-tlv': [(1028, 4), (1095, 3), (1092, 4), (1026, 5), (9999, 2), (1034, 12), (1029, 16)],
         'prefixsid': [(1, 7), (3, 8), (9, 2), (5, 0)],
         'evpn': [1, 3, 4],
+        'capability': ['mp', 'addpath', 'addpath2', 'rr', 'as4', 'unknown'],
         'flowspec': [('prefix', 24), ('prefix', 0), ('prefix', 9), ('op', 3), ('op', 5)],
         'prefix6': [{'plen': pl, 'addr': ad} for pl in ([0, 1, 8, 9, 60, 64, 127, 128] if quick else
                                                        [0, 1, 7, 8, 9, 15, 16, 17, 32, 48, 59, 60, 61, 63, 64, 65, 96, 120, 127, 128])
@@ -257,7 +317,80 @@ def obligations(tier, seed):
         for pm in itertools.permutations(g):
             out.append(ob('C15/attr-order/%s' % '-'.join(pm), 'ob_attr_order', {'attrs': list(pm), 'base': g},
                           covers=['decoded'], cap=150 if quick else 500))
+    # attributes whose decoding depends on another attribute of the same UPDATE: BGP-LS (the attribute TLVs are read
+    # according to the protocol id of the NLRI in MP_REACH_NLRI) and EVPN overlay (PMSI label read as a VNI when an
+    # encapsulation extended community accompanies an EVPN MP_REACH_NLRI)
+    for pro in ((1, 3) if quick else (1, 2, 3, 6)):
+        g = ['origin', 'mp-bgpls', 'linkstate']
+        for pm in itertools.permutations(g):
+            out.append(ob('C15/attr-order/pro=%d/%s' % (pro, '-'.join(pm)), 'ob_attr_order_x', {'attrs': list(pm), 'base': g, 'pro': pro},
+                          covers=['decoded'], cap=150 if quick else 500))
+        if not quick:
+            g = ['origin', 'linkstate', 'localpref', 'mp-bgpls']
+            for pm in itertools.permutations(g):
+                out.append(ob('C15/attr-order/pro=%d/%s' % (pro, '-'.join(pm)), 'ob_attr_order_x',
+                              {'attrs': list(pm), 'base': g, 'pro': pro}, covers=['decoded'], cap=500))
+    g = ['mp-evpn', 'ext-encap', 'pmsi']
+    for pm in itertools.permutations(g):
+        out.append(ob('C15/attr-order/%s' % '-'.join(pm), 'ob_attr_order_x', {'attrs': list(pm), 'base': g},
+                      covers=['decoded'], cap=150 if quick else 500))
     return out
+
+
+def raw_attr(name, v):
+    """one complete attribute TLV of a cross-dependent group from the symbolic values v"""
+    def tlv(t, body):
+        return E.u16(t) + E.u16(len(body)) + body
+
+    def attr(flags, code, body):
+        if len(body) > 255:
+            return bytes([flags | 0x10, code]) + E.u16(len(body)) + body
+        return bytes([flags, code, len(body)]) + body
+    if name == 'origin':
+        assume(0 <= v[0] <= 2)
+        return attr(0x40, 1, bytes([v[0]]))
+    if name == 'localpref':
+        assume(0 <= v[1] < 2 ** 32)
+        return attr(0x40, 5, E.u32(v[1]))
+    if name == 'mp-bgpls':
+        assume(1 <= v[2] < 2 ** 32)
+
+        def node(code, iso):
+            return tlv(code, tlv(512, E.u32(v[2])) + tlv(515, bytes(iso)))
+        body = bytes([P['pro']]) + bytes(8) + node(256, [0, 0, 0, 0, 0, 1]) + node(257, [0, 0, 0, 0, 0, 3]) + \
+            tlv(259, bytes([1, 3, 0, 1])) + tlv(260, bytes([1, 3, 0, 2]))
+        return attr(0x80, 14, E.u16(16388) + bytes([71, 4, 10, 75, 44, 254, 0]) + tlv(2, body))
+    if name == 'linkstate':
+        assume(0 <= v[3] < 2 ** 32 and 16 <= v[4] < 2 ** 20)
+        lab = bytes([v[4] // 65536, (v[4] // 256) % 256, v[4] % 256])
+        adj = tlv(1099, bytes([0x30, 0, 0, 0]) + lab)
+        return attr(0x80, 29, tlv(1092, E.u32(v[3])) + tlv(60000, bytes([0xde, 0xad])) + adj)
+    if name == 'mp-evpn':
+        assume(0 <= v[0] < 2 ** 24)
+        rd = bytes([0, 1, 10, 0, 0, 1, 0, 7])
+        lab = bytes([v[0] // 65536, (v[0] // 256) % 256, v[0] % 256])
+        route = rd + bytes(10) + E.u32(100) + bytes([48, 0, 17, 34, 51, 68, 85]) + bytes([0]) + lab
+        return attr(0x80, 14, E.u16(25) + bytes([70, 4, 10, 0, 0, 9, 0]) + bytes([2, len(route)]) + route)
+    if name == 'ext-encap':
+        assume(0 <= v[1] < 16)
+        return attr(0xc0, 16, bytes([3, 0x0c, 0, 0, 0, 0, 0, v[1]]))
+    if name == 'pmsi':
+        assume(0 <= v[2] < 2 ** 24)
+        lab = bytes([v[2] // 65536, (v[2] // 256) % 256, v[2] % 256])
+        return attr(0xc0, 22, bytes([0, 6]) + lab + bytes([10, 0, 0, 9]))
+    raise AssertionError(name)
+
+
+def ob_attr_order_x(a: int, b: int, c: int, d: int, e: int) -> bool:
+    from yabgp.message.update import Update
+    v = [a, b, c, d, e]
+    enc = dict((name, raw_attr(name, v)) for name in P['base'])
+    base_blob = b''.join(enc[n] for n in P['base'])
+    perm_blob = b''.join(enc[n] for n in P['attrs'])
+    o1 = Update.parse(None, E.update_body(b'', base_blob, b''), True, {})
+    o2 = Update.parse(None, E.update_body(b'', perm_blob, b''), True, {})
+    cover('decoded')
+    return o1['sub_error'] is None and o2['sub_error'] is None and same(o1['attr'], o2['attr'])
 
 
 def ob_attr_order(a: int, b: int, c: int, d: int, e: int) -> bool:
